@@ -48,6 +48,9 @@ CanRead(m)  == (m % 4) # 1
 CanWrite(m) == (m % 4) \in {1, 2}
 
 FailSet == IF WithFail THEN {"fail"} ELSE {}
+\* "failboth": the file system reports an error AND hands back a result (entry, file); the result is void:
+\* the session must behave exactly as for a plain failure and neither keep, use nor release it
+FailSetB == IF WithFail THEN {"fail", "failboth"} ELSE {}
 
 \* one expected FileSys call: on handle h, kind call, scripted outcome out;
 \* nh: handle id of the entry the call hands out (0: none), k: qids returned, dir: kind of new entry
@@ -73,7 +76,7 @@ Attach(f, af) ==
   \/ /\ af = NOFID /\ Bound(f) /\ Same
      /\ last' = Rec("attach", a, <<>>, "dupfid", 0)
   \/ /\ af = NOFID /\ f \in Fids /\ ~Bound(f)
-     /\ \E out \in {"ok"} \cup FailSet, d \in BOOLEAN :
+     /\ \E out \in {"ok"} \cup FailSetB, d \in BOOLEAN :
           IF out = "ok" THEN
              LET h == NewH(live) IN
              /\ tab' = [tab EXCEPT ![f] = [h |-> h, dir |-> d, open |-> FALSE, mode |-> 0]]
@@ -82,7 +85,7 @@ Attach(f, af) ==
              /\ last' = Rec("attach", a, <<FS("attach", 0, "ok", h, 0, d)>>, "", 0)
           ELSE
              /\ d = FALSE /\ Same
-             /\ last' = Rec("attach", a, <<FS("attach", 0, "fail", 0, 0, FALSE)>>, "fs", 0)
+             /\ last' = Rec("attach", a, <<FS("attach", 0, out, 0, 0, FALSE)>>, "fs", 0)
 
 \* -------------------------------------------------------------------- walk
 Walk(f, nf, ns) ==
@@ -117,10 +120,10 @@ Walk(f, nf, ns) ==
          /\ n > 0 /\ Same
          /\ last' = Rec("walk", a, <<FS("walk", src, "partial", 0, k, FALSE)>>, "", k)
     \/ \* the file system refuses, or hands back no entry
-       \E out \in FailSet \cup (IF WithFail THEN {"nil"} ELSE {}) :
+       \E out \in FailSetB \cup (IF WithFail THEN {"nil"} ELSE {}) :
          /\ Same
          /\ last' = Rec("walk", a, <<FS("walk", src, out, 0, n, FALSE)>>,
-                        IF out = "fail" THEN "fs" ELSE "invalidresult", 0)
+                        IF out \in {"fail", "failboth"} THEN "fs" ELSE "invalidresult", 0)
 
 \* in-place walks of an opened fid are outside the property (9P forbids walking an open fid)
 WalkAllowed(f, nf, ns) == ~(f = nf /\ Len(ns) > 0 /\ Bound(f) /\ tab[f].open)
@@ -135,7 +138,7 @@ Open(f, m) ==
         call == IF tab[f].dir THEN "opendir" ELSE "open" IN
     \* "nil": the file system returns no file and no error (plain files only: a nil
     \* directory iterator is indistinguishable from an empty one in Go)
-    \E out \in {"ok"} \cup FailSet \cup (IF WithFail /\ ~tab[f].dir THEN {"nil"} ELSE {}) :
+    \E out \in {"ok"} \cup FailSetB \cup (IF WithFail /\ ~tab[f].dir THEN {"nil"} ELSE {}) :
       IF out = "ok" THEN
         /\ tab' = [tab EXCEPT ![f] = [@ EXCEPT !.open = TRUE, !.mode = m]]
         /\ UNCHANGED <<live, stopped>>
@@ -143,7 +146,7 @@ Open(f, m) ==
       ELSE
         /\ Same
         /\ last' = Rec("open", a, <<FS(call, h, out, 0, 0, FALSE)>>,
-                       IF out = "fail" THEN "fs" ELSE "invalidresult", 0)
+                       IF out \in {"fail", "failboth"} THEN "fs" ELSE "invalidresult", 0)
 
 \* ------------------------------------------------------------ read / write
 Read(f) ==
@@ -213,10 +216,11 @@ Create(f, nm, m) ==
        /\ tab' = [tab EXCEPT ![f] = Unbound]
        /\ live' = live \ {p}
        /\ UNCHANGED stopped
-       /\ last' = Rec("create", a, <<FS("create", p, "ok", h, 0, TRUE), FS("opendir", h, "fail", 0, 0, FALSE),
-                                     FS("clunk", h, "ok", 0, 0, FALSE)>>, "fs", 0)
+       /\ \E out \in FailSetB :
+            last' = Rec("create", a, <<FS("create", p, "ok", h, 0, TRUE), FS("opendir", h, out, 0, 0, FALSE),
+                                       FS("clunk", h, "ok", 0, 0, FALSE)>>, "fs", 0)
     \/ /\ WithFail /\ Same
-       /\ last' = Rec("create", a, <<FS("create", p, "fail", 0, 0, FALSE)>>, "fs", 0)
+       /\ \E out \in FailSetB : last' = Rec("create", a, <<FS("create", p, out, 0, 0, FALSE)>>, "fs", 0)
 
 \* -------------------------------------------------------------------- stop
 \* releases every bound entry once (in any order); nothing remains bound
